@@ -166,7 +166,8 @@ def advance (sql : Sql) (st : St) (i : Nat) : Res St :=
   let brk := st.current ≥ 1 && isBreak sql (st.current - 1)
   let crlf := st.current ≥ 1 && isNL sql (st.current - 1) && !brk   -- CR directly before LF: neither line nor col move
   let cur := st.current + i
-  if cur > sql.size then .error cur
+  if i = 0 then .unsupported "_advance(0)"
+  else if cur > sql.size then .error cur
   else .ok { st with
     current := cur
     line := if brk then st.line + 1 else st.line
@@ -240,14 +241,12 @@ def findCh (sql : Sql) (d : Char) : Nat → Nat → Option Nat
 
 def countLF (sql : Sql) (a : Nat) : Nat → Nat
   | 0 => 0
-  | n+1 => (match sql[a]? with | some ch => if ch.c == '\n' then 1 else 0 | none => 0) + countLF sql (a+1) n
+  | n+1 => (if isLF sql a then 1 else 0) + countLF sql (a+1) n
 
 /-- sql.rfind("\n", a, a+n) -/
 def rfindLF (sql : Sql) (a : Nat) : Nat → Option Nat
   | 0 => none
-  | n+1 => match sql[a+n]? with
-    | some ch => if ch.c == '\n' then some (a+n) else rfindLF sql a n
-    | none => rfindLF sql a n
+  | n+1 => if isLF sql (a+n) then some (a+n) else rfindLF sql a n
 
 def hasCh (sql : Sql) (c : Char) (a : Nat) : Nat → Bool
   | 0 => false
@@ -257,31 +256,40 @@ def hasLoneCR (sql : Sql) (a : Nat) : Nat → Bool
   | 0 => false
   | n+1 => (isBreak sql a && isCR sql a) || hasLoneCR sql (a+1) n
 
+/-- the position bookkeeping of the str.find fast path: the cursor stands on offset pos with (line, col) and is moved to
+    offset e:  newlines = sql.count("\n", pos, e); if newlines: line += newlines; col = e - sql.rfind("\n", pos, e)
+    else: col += e - pos -/
+def fastPos (sql : Sql) (line col pos e : Nat) : Nat × Nat :=
+  if countLF sql pos (e - pos) > 0 then
+    (line + countLF sql pos (e - pos), match rfindLF sql pos (e - pos) with | some r => e - r | none => e + 1)
+  else (line, col + (e - pos))
+
 structure XCfg where    -- the per-call arguments of _extract_string
   delim : List Char
   escapes : List String
   raw : Bool
 
+/-- the guard of the fast path fails: doubled delimiter that is an escape, a backslash that needs escape processing, or
+    (repaired code) a CR inside the literal -/
+def fastBlocked (cfg : Cfg) (sql : Sql) (x : XCfg) (d : Char) (pos e : Nat) : Bool :=
+  ((match sql[e+1]? with | some n => n.c == d | none => false) && memS [d] x.escapes)
+  || ((!cfg.unescaped.isEmpty || memS ['\\'] x.escapes) && hasCh sql '\\' pos (e - pos))
+  || (cfg.fixLoneCR && hasCh sql '\r' pos (e - pos))
+
 /-- the str.find fast path of `_extract_string` (delimiter of one character).  `none` = the guard failed. -/
 def fastString (cfg : Cfg) (sql : Sql) (st : St) (x : XCfg) : Option (St × List Char) :=
   match x.delim with
   | [d] =>
-    let pos := st.current - 1
-    match findCh sql d (sql.size - pos) pos with
+    match findCh sql d (sql.size - (st.current - 1)) (st.current - 1) with
     | none => none
     | some e =>
-      let dbl := (match sql[e+1]? with | some n => n.c == d | none => false) && memS [d] x.escapes
-      let bs := (!cfg.unescaped.isEmpty || memS ['\\'] x.escapes) && hasCh sql '\\' pos (e - pos)
-      let cr := cfg.fixLoneCR && hasCh sql '\r' pos (e - pos)
-      if dbl || bs || cr || st.current = 0 then none
+      if fastBlocked cfg sql x d (st.current - 1) e || st.current = 0 then none
       else
-        let nl := countLF sql pos (e - pos)
-        let (line, col) :=
-          if nl > 0 then
-            (st.line + nl, match rfindLF sql pos (e - pos) with | some r => e - r | none => e + 1)
-          else (st.line, st.col + (e - pos))
-        some ({ st with current := e + 1, line := line, col := col,
-                        skew := st.skew || hasLoneCR sql pos (e - pos) }, slice sql pos e)
+        some ({ st with current := e + 1,
+                        line := (fastPos sql st.line st.col (st.current - 1) e).1,
+                        col := (fastPos sql st.line st.col (st.current - 1) e).2,
+                        skew := st.skew || hasLoneCR sql (st.current - 1) (e - (st.current - 1)) || d == '\n' },
+              slice sql (st.current - 1) e)
   | _ => none
 
 def followOk (cfg : Cfg) (c : Option Ch) : Bool :=   -- `self._peek not in escape_follow_chars`
@@ -291,42 +299,54 @@ def followOk (cfg : Cfg) (c : Option Ch) : Bool :=   -- `self._peek not in escap
 def advance2 (cfg : Cfg) (sql : Sql) (st : St) : Res St :=
   if cfg.fixEscJump then (advance sql st 1).bind (fun s => advance sql s 1) else advance sql st 2
 
+/-! the decisions of one iteration of the slow path, as functions of the cursor -/
+def chStr (c : Option Ch) : List Char := match c with | some ch => [ch.c] | none => []
+
+def inEsc (sql : Sql) (x : XCfg) (st : St) : Bool :=
+  (char sql st).isSome && memS (chStr (char sql st)) x.escapes
+
+/-- `unescaped_sequences.get(char + peek)` when it applies and is non-empty -/
+def unescOf (cfg : Cfg) (sql : Sql) (x : XCfg) (st : St) : Option String :=
+  if !x.raw && !cfg.unescaped.isEmpty && (peek sql st).isSome && inEsc sql x st then
+    (match lookupS (chStr (char sql st) ++ chStr (peek sql st)) cfg.unescaped with
+     | some u => if u.isEmpty then none else some u
+     | none => none)
+  else none
+
+def customEsc (cfg : Cfg) (sql : Sql) (st : St) : Bool :=
+  !cfg.followChars.isEmpty && chStr (char sql st) == ['\\'] && followOk cfg (peek sql st)
+
+def escDelim (cfg : Cfg) (sql : Sql) (x : XCfg) (st : St) : Bool :=
+  ((peek sql st).isSome && chStr (peek sql st) == x.delim) ||
+  (decide (x.delim.length > 1) && (peek sql st).isSome && chStr (peek sql st) == x.delim.take 1
+    && (lookupS (chStr (peek sql st)) cfg.quotes).isSome)
+
+/-- the big `if` of the slow path: the current character escapes the next one -/
+def escCond (cfg : Cfg) (sql : Sql) (x : XCfg) (st : St) : Bool :=
+  (cfg.rawEsc || !x.raw) && inEsc sql x st
+    && (escDelim cfg sql x st || (memS (chStr (peek sql st)) x.escapes && (peek sql st).isSome) || customEsc cfg sql st)
+    && ((lookupS (chStr (char sql st)) cfg.quotes).isNone || chStr (char sql st) == chStr (peek sql st))
+
+def escText (cfg : Cfg) (sql : Sql) (x : XCfg) (st : St) : List Char :=
+  if escDelim cfg sql x st then (if !x.raw then chStr (peek sql st) else chStr (char sql st) ++ chStr (peek sql st))
+  else if customEsc cfg sql st && chStr (char sql st) != chStr (peek sql st) then chStr (peek sql st)
+  else chStr (char sql st) ++ chStr (peek sql st)
+
 def slowString (cfg : Cfg) (sql : Sql) (x : XCfg) : Nat → St → List Char → Res (St × List Char)
   | 0, _, _ => .fuel
   | f+1, st, text =>
-    let ch := char sql st
-    let pk := peek sql st
-    let chS : List Char := match ch with | some c => [c.c] | none => []
-    let pkS : List Char := match pk with | some c => [c.c] | none => []
-    let inEsc := ch.isSome && memS chS x.escapes
-    let unesc : Option String :=
-      if !x.raw && !cfg.unescaped.isEmpty && pk.isSome && inEsc then
-        (match lookupS (chS ++ pkS) cfg.unescaped with | some u => if u.isEmpty then none else some u | none => none)
-      else none
-    match unesc with
+    match unescOf cfg sql x st with
     | some u => (advance2 cfg sql st).bind fun s => slowString cfg sql x f s (text ++ u.toList)
     | none =>
-      let custom := !cfg.followChars.isEmpty && chS == ['\\'] && followOk cfg pk
-      let dsz := x.delim.length
-      let escDelim := (pk.isSome && pkS == x.delim) ||
-        (dsz > 1 && pk.isSome && pkS == x.delim.take 1 && (lookupS pkS cfg.quotes).isSome)
-      let peekInEsc := memS pkS x.escapes && pk.isSome
-      if (cfg.rawEsc || !x.raw) && inEsc && (escDelim || peekInEsc || custom)
-          && ((lookupS chS cfg.quotes).isNone || chS == pkS) then
-        let add' : List Char :=
-          if escDelim then (if !x.raw then pkS else chS ++ pkS)
-          else if custom && chS != pkS then pkS
-          else chS ++ pkS
+      if escCond cfg sql x st then
         if st.current + 1 < sql.size then
-          (advance2 cfg sql st).bind fun s => slowString cfg sql x f s (text ++ add')
+          (advance2 cfg sql st).bind fun s => slowString cfg sql x f s (text ++ escText cfg sql x st)
         else .error st.current
+      else if chars sql st x.delim.length == x.delim then
+        if x.delim.length > 1 then (advance sql st (x.delim.length - 1)).bind fun s => .ok (s, text) else .ok (st, text)
+      else if atEnd sql st then .error st.current
       else
-        if chars sql st dsz == x.delim then
-          if dsz > 1 then (advance sql st (dsz - 1)).bind fun s => .ok (s, text) else .ok (st, text)
-        else if atEnd sql st then .error st.current
-        else
-          let c0 := st.current - 1
-          (advanceAlnum sql st).bind fun s => slowString cfg sql x f s (text ++ slice sql c0 (s.current - 1))
+        (advanceAlnum sql st).bind fun s => slowString cfg sql x f s (text ++ slice sql (st.current - 1) (s.current - 1))
 
 def extractString (cfg : Cfg) (sql : Sql) (st : St) (x : XCfg) : Res (St × List Char) :=
   match fastString cfg sql st x with
@@ -357,6 +377,22 @@ def finishNumber (cfg : Cfg) (sql : Sql) (st : St) (us : Bool) : Res St :=
   let t := slice sql st.start st.current
   add cfg sql st "NUMBER" (some (if us then t.filter (· != '_') else t))
 
+def nextIsDigit (sql : Sql) (st : St) : Bool :=
+  match sql[st.current + 1]? with | some n => isDigit n.c | none => false
+
+/-- `keywords.get(numeric_literals.get(literal.upper(), ""))` is a token type -/
+def isNumericSuffix (cfg : Cfg) (lit : List Ch) : Bool :=
+  match lookupS (upperOf lit) cfg.numericLiterals with
+  | some ty => (lookupS ty.toList cfg.keywords).isSome
+  | none => false
+
+/-- the `elif self._peek.isidentifier()` branch of `_scan_number` -/
+def numIdentTail (cfg : Cfg) (sql : Sql) (st : St) (us : Bool) : Res St :=
+  (litLoop cfg sql (sql.size + 1) st []).bind fun r =>
+    if isNumericSuffix cfg r.2 then .unsupported "numeric literal suffix"
+    else if cfg.identDigit then add cfg sql r.1 "VAR" none
+    else (retreat sql r.1 r.2.length).bind fun s2 => finishNumber cfg sql s2 us
+
 def numLoop (cfg : Cfg) (sql : Sql) : Nat → St → Bool → Nat → Bool → Res St
   | 0, _, _, _, _ => .fuel
   | f+1, st, dec, sci, us =>
@@ -364,33 +400,32 @@ def numLoop (cfg : Cfg) (sql : Sql) : Nat → St → Bool → Nat → Bool → R
     | none => finishNumber cfg sql st us
     | some p =>
       if isDigit p.c then
-        let e := digitsEnd sql (sql.size - st.current) (st.current + 1)
-        (advance sql st (e - st.current)).bind fun s => numLoop cfg sql f s dec sci us
+        (advance sql st (digitsEnd sql (sql.size - st.current) (st.current + 1) - st.current)).bind fun s =>
+          numLoop cfg sql f s dec sci us
       else if p.c == '.' && !dec then
         if lastTy st == some "PARAMETER" || !cfg.decimals then finishNumber cfg sql st us
         else (advance sql st 1).bind fun s => numLoop cfg sql f s true sci us
       else if (p.c == '-' || p.c == '+') && sci == 1 then
-        if (match sql[st.current + 1]? with | some n => isDigit n.c | none => false) then
-          (advance sql st 1).bind fun s => numLoop cfg sql f s dec 2 us
+        if nextIsDigit sql st then (advance sql st 1).bind fun s => numLoop cfg sql f s dec 2 us
         else finishNumber cfg sql st us
       else if asciiUpper p.c == 'E' && sci == 0 then
         (advance sql st 1).bind fun s => numLoop cfg sql f s dec 1 us
       else if p.c == '_' && cfg.underscore then
         (advance sql st 1).bind fun s => numLoop cfg sql f s dec sci true
-      else if p.ident then
-        (litLoop cfg sql (sql.size + 1) st []).bind fun (s, lit) =>
-          let key := upperOf lit
-          if (match lookupS key cfg.numericLiterals with
-              | some ty => (lookupS ty.toList cfg.keywords).isSome | none => false) then .unsupported "numeric literal suffix"
-          else if cfg.identDigit then add cfg sql s "VAR" none
-          else (retreat sql s lit.length).bind fun s2 => finishNumber cfg sql s2 us
+      else if p.ident then numIdentTail cfg sql st us
       else finishNumber cfg sql st us
 
+def charIs (sql : Sql) (st : St) (c : Char) : Bool :=
+  match char sql st with | some ch => ch.c == c | none => false
+
+def peekUpperIs (sql : Sql) (st : St) (c : Char) : Bool :=
+  match peek sql st with | some ch => asciiUpper ch.c == c | none => false
+
 def scanNumber (cfg : Cfg) (sql : Sql) (st : St) : Res St :=
-  let c := match char sql st with | some ch => ch.c | none => ' '
-  let pk := match peek sql st with | some ch => asciiUpper ch.c | none => ' '
-  if c == '0' && pk == 'B' then (if cfg.hasBit then .unsupported "0b literal" else add cfg sql st "NUMBER" none)
-  else if c == '0' && pk == 'X' then (if cfg.hasHex then .unsupported "0x literal" else add cfg sql st "NUMBER" none)
+  if charIs sql st '0' && peekUpperIs sql st 'B' then
+    (if cfg.hasBit then .unsupported "0b literal" else add cfg sql st "NUMBER" none)
+  else if charIs sql st '0' && peekUpperIs sql st 'X' then
+    (if cfg.hasHex then .unsupported "0x literal" else add cfg sql st "NUMBER" none)
   else numLoop cfg sql (sql.size + 2) st false 0 false
 
 def varLoop (cfg : Cfg) (sql : Sql) : Nat → St → Res St
@@ -403,53 +438,55 @@ def varLoop (cfg : Cfg) (sql : Sql) : Nat → St → Res St
       else if !memS [p.c] cfg.varSingle && isSingle cfg p.c then .ok st
       else (advanceAlnum sql st).bind fun s => varLoop cfg sql f s
 
+def varType (cfg : Cfg) (sql : Sql) (s : St) : String :=
+  if lastTy s == some "PARAMETER" then "VAR"
+  else match lookupS (upperOf (sliceCh sql s.start s.current)) cfg.keywords with
+    | some t => t | none => "VAR"
+
 def scanVar (cfg : Cfg) (sql : Sql) (st : St) : Res St :=
-  (varLoop cfg sql (sql.size + 1) st).bind fun s =>
-    let ty :=
-      if lastTy s == some "PARAMETER" then "VAR"
-      else match lookupS (upperOf (sliceCh sql s.start s.current)) cfg.keywords with
-        | some t => t | none => "VAR"
-    add cfg sql s ty none
+  (varLoop cfg sql (sql.size + 1) st).bind fun s => add cfg sql s (varType cfg sql s) none
 
 def scanIdentifier (cfg : Cfg) (sql : Sql) (st : St) (endD : String) : Res St :=
   (advance sql st 1).bind fun s =>
-    (extractString cfg sql s ⟨endD.toList, endD :: cfg.identEscapes, false⟩).bind fun (s2, text) =>
-      add cfg sql s2 "IDENTIFIER" (some text)
+    (extractString cfg sql s ⟨endD.toList, endD :: cfg.identEscapes, false⟩).bind fun r =>
+      add cfg sql r.1 "IDENTIFIER" (some r.2)
 
 def allDigitsBase (base : Nat) (t : List Char) : Bool :=
   t.all fun c => if base == 2 then c == '0' || c == '1' else isDigit c || ('a' ≤ c && c ≤ 'f') || ('A' ≤ c && c ≤ 'F')
 
+def baseOf (ty : String) : Nat := if ty == "HEX_STRING" then 16 else if ty == "BIT_STRING" then 2 else 0
+
+/-- the body of `_scan_string` once the start delimiter `word` (closing delimiter endD, token type ty) is known -/
+def stringBody (cfg : Cfg) (sql : Sql) (st : St) (word : List Char) (endD : String) (ty : String) : Res St :=
+  if ty == "HEREDOC_STRING" then .unsupported "heredoc"
+  else
+    (advance sql st word.length).bind fun s =>
+      (extractString cfg sql s ⟨endD.toList, if ty == "BYTE_STRING" then cfg.byteEscapes else cfg.stringEscapes,
+                                ty == "RAW_STRING"⟩).bind fun r =>
+        if baseOf ty != 0 && !r.2.isEmpty && !allDigitsBase (baseOf ty) r.2 then
+          .unsupported "int(text, base) on a non-digit body"
+        else add cfg sql r.1 ty (some r.2)
+
 /-- `_scan_string(word)`: `none` = not a string start -/
 def scanString (cfg : Cfg) (sql : Sql) (st : St) (word : List Char) : Option (Res St) :=
-  let go (endD : String) (ty : String) : Res St :=
-    if ty == "HEREDOC_STRING" then .unsupported "heredoc"
-    else
-      let base : Nat := if ty == "HEX_STRING" then 16 else if ty == "BIT_STRING" then 2 else 0
-      (advance sql st word.length).bind fun s =>
-        (extractString cfg sql s ⟨endD.toList, if ty == "BYTE_STRING" then cfg.byteEscapes else cfg.stringEscapes,
-                                  ty == "RAW_STRING"⟩).bind fun (s2, text) =>
-          if base != 0 && !text.isEmpty && !allDigitsBase base text then .unsupported "int(text, base) on a non-digit body"
-          else add cfg sql s2 ty (some text)
   match lookupS word cfg.quotes with
-  | some e => some (go e "STRING")
+  | some e => some (stringBody cfg sql st word e "STRING")
   | none =>
     match cfg.formats.find? (fun f => f.1.toList == word) with
-    | some (_, e, ty) => some (go e ty)
+    | some f => some (stringBody cfg sql st word f.2.1 f.2.2)
     | none => none
 
 def commentLoop (cfg : Cfg) (sql : Sql) (cstart cend : List Char) : Nat → St → Nat → Res St
   | 0, _, _ => .fuel
   | f+1, st, count =>
     if atEnd sql st then .ok st
+    else if chars sql st cend.length == cend && count == 1 then .ok st
     else
-      let hit := chars sql st cend.length == cend
-      if hit && count == 1 then .ok st
-      else
-        let count := if hit then count - 1 else count
-        (advanceAlnum sql st).bind fun s =>
-          if cfg.nested && !atEnd sql s && chars sql s cend.length == cstart then
-            (advance sql s cstart.length).bind fun s2 => commentLoop cfg sql cstart cend f s2 (count + 1)
-          else commentLoop cfg sql cstart cend f s count
+      (advanceAlnum sql st).bind fun s =>
+        if cfg.nested && !atEnd sql s && chars sql s cend.length == cstart then
+          (advance sql s cstart.length).bind fun s2 =>
+            commentLoop cfg sql cstart cend f s2 ((if chars sql st cend.length == cend then count - 1 else count) + 1)
+        else commentLoop cfg sql cstart cend f s (if chars sql st cend.length == cend then count - 1 else count)
 
 def lineCommentLoop (sql : Sql) : Nat → St → Res St
   | 0, _ => .fuel
@@ -458,11 +495,13 @@ def lineCommentLoop (sql : Sql) : Nat → St → Res St
     | none => .ok st
     | some p => if p.c == '\n' || p.c == '\r' then .ok st else (advanceAlnum sql st).bind fun s => lineCommentLoop sql f s
 
+def hintApplies (cfg : Cfg) (st : St) (word : List Char) : Bool :=
+  word == cfg.hintStart.toList && (match lastTy st with | some p => cfg.precedingHint.contains p | none => false)
+
+def pushSpan (st : St) : St := { st with spans := st.spans ++ [(st.start, st.current - 1)] }
+
 def finishComment (cfg : Cfg) (sql : Sql) (st : St) (word : List Char) : Res St :=
-  let st := { st with spans := st.spans ++ [(st.start, st.current - 1)] }
-  if word == cfg.hintStart.toList && (match lastTy st with | some p => cfg.precedingHint.contains p | none => false) then
-    add cfg sql st "HINT" none
-  else .ok st
+  if hintApplies cfg (pushSpan st) word then add cfg sql (pushSpan st) "HINT" none else .ok (pushSpan st)
 
 /-- `_scan_comment(word)`: `none` = not a comment start -/
 def scanComment (cfg : Cfg) (sql : Sql) (st : St) (word : List Char) : Option (Res St) :=
@@ -472,7 +511,7 @@ def scanComment (cfg : Cfg) (sql : Sql) (st : St) (word : List Char) : Option (R
     | some e =>
       some ((advance sql st word.length).bind fun s =>
         (commentLoop cfg sql word e.toList (sql.size + 2) s 1).bind fun s2 =>
-          (if e.length > 1 then advance sql s2 (e.length - 1) else .ok s2).bind fun s3 => finishComment cfg sql s3 word)
+          (if e.toList.length > 1 then advance sql s2 (e.toList.length - 1) else .ok s2).bind fun s3 => finishComment cfg sql s3 word)
     | none => none
 
 def trieHasPrefix (cfg : Cfg) (p : List Char) : Bool := cfg.trie.any fun k => p.isPrefixOf k.toList
@@ -485,29 +524,30 @@ structure KwR where
   single : Bool
   charEmpty : Bool     -- `not char` at loop exit
 
+/-- one trie step of `_scan_keywords`: `none` = `trie.get(upper(char))` is None (break); otherwise the new trie path and the
+    longest keyword seen so far (`if 0 in trie: word = chars`) -/
+def kwStep (cfg : Cfg) (pfx chars : List Char) (char : Char) (skip : Bool) (word : Option (List Char)) :
+    Option (List Char × Option (List Char)) :=
+  if skip then some (pfx, word)
+  else if trieHasPrefix cfg (pfx ++ [asciiUpper char]) then
+    some (pfx ++ [asciiUpper char], if trieHas cfg (pfx ++ [asciiUpper char]) then some chars else word)
+  else none
+
 /-- the trie walk of `_scan_keywords`.  `pfx` = path walked in the trie (upper-cased), `chars` = folded text so far. -/
 def kwLoop (cfg : Cfg) (sql : Sql) (cur : Nat) : Nat → (chars pfx : List Char) → (char : Char) → (skip prevSpace single : Bool) →
     (size : Nat) → (word : Option (List Char)) → KwR
   | 0, _, _, _, _, ps, sg, size, word => ⟨word, size, ps, sg, false⟩
   | f+1, chars, pfx, char, skip, ps, sg, size, word =>
-    let step : Option (List Char × Option (List Char)) :=
-      if skip then some (pfx, word)
-      else
-        let p := pfx ++ [asciiUpper char]
-        if trieHasPrefix cfg p then some (p, if trieHas cfg p then some chars else word) else none
-    match step with
+    match kwStep cfg pfx chars char skip word with
     | none => ⟨word, size, ps, sg, false⟩
-    | some (pfx, word) =>
-      let e := cur + size
-      let size := size + 1
-      match sql[e]? with
-      | none => ⟨word, size, ps, sg, true⟩
+    | some r =>
+      match sql[cur + size]? with
+      | none => ⟨r.2, size + 1, ps, sg, true⟩
       | some ch =>
-        let sg := sg || isSingle cfg ch.c
         if !ch.space || !ps then
-          let c := if ch.space then ' ' else ch.c
-          kwLoop cfg sql cur f (chars ++ [c]) pfx c false ch.space sg size word
-        else kwLoop cfg sql cur f chars pfx ch.c true ps sg size word
+          kwLoop cfg sql cur f (chars ++ [if ch.space then ' ' else ch.c]) r.1 (if ch.space then ' ' else ch.c) false ch.space
+            (sg || isSingle cfg ch.c) (size + 1) r.2
+        else kwLoop cfg sql cur f chars r.1 ch.c true ps (sg || isSingle cfg ch.c) (size + 1) r.2
 
 /-- the keyword jump `_advance(size - 1)`; repaired: one character at a time -/
 def stepN (sql : Sql) : Nat → St → Res St
@@ -518,35 +558,40 @@ def advanceKw (cfg : Cfg) (sql : Sql) (st : St) (n : Nat) : Res St :=
   if n = 0 then .unsupported "_advance(0)"
   else if cfg.fixKwJump && hasNL sql st.current (n - 1) then stepN sql n st else advance sql st n
 
+/-- `self._add(self.keywords[word.upper()], text=word.upper())` (KeyError = exception) -/
+def kwAdd (cfg : Cfg) (sql : Sql) (st : St) (w : List Char) : Res St :=
+  match lookupS (w.map asciiUpper) cfg.keywords with
+  | some ty => add cfg sql st ty (some (w.map asciiUpper))
+  | none => .error st.current
+
+/-- the tail of `_scan_keywords`: single-character token or `_scan_var` -/
+def kwFallback (cfg : Cfg) (sql : Sql) (st : St) (c0 : Char) : Res St :=
+  match lookupS [c0] cfg.single with
+  | some ty => add cfg sql st ty (some [c0])
+  | none => scanVar cfg sql st
+
+def kwResult (cfg : Cfg) (sql : Sql) (st : St) (c0 : Char) : KwR :=
+  kwLoop cfg sql st.current (sql.size + 2) [c0] [] c0 false false (isSingle cfg c0) 0 none
+
+def scanWord (cfg : Cfg) (sql : Sql) (st : St) (c0 : Char) (r : KwR) (w : List Char) : Res St :=
+  match scanString cfg sql st w with
+  | some res => res
+  | none =>
+    match scanComment cfg sql st w with
+    | some res => res
+    | none =>
+      if r.prevSpace || r.single || r.charEmpty then
+        if r.size = 1 then kwAdd cfg sql st w
+        else (advanceKw cfg sql st (r.size - 1)).bind fun s => kwAdd cfg sql s w
+      else kwFallback cfg sql st c0
+
 def scanKeywords (cfg : Cfg) (sql : Sql) (st : St) : Res St :=
   match char sql st with
   | none => .unsupported "no current character"
   | some c0 =>
-    let r := kwLoop cfg sql st.current (sql.size + 2) [c0.c] [] c0.c false false (isSingle cfg c0.c) 0 none
-    let fallback : Res St :=
-      match lookupS [c0.c] cfg.single with
-      | some ty => add cfg sql st ty (some [c0.c])
-      | none => scanVar cfg sql st
-    match r.word with
-    | some w =>
-      match scanString cfg sql st w with
-      | some res => res
-      | none =>
-        match scanComment cfg sql st w with
-        | some res => res
-        | none =>
-          if r.prevSpace || r.single || r.charEmpty then
-            if r.size = 1 then
-              (match lookupS (w.map asciiUpper) cfg.keywords with
-               | some ty => add cfg sql st ty (some (w.map asciiUpper))
-               | none => .error st.current)
-            else
-              (advanceKw cfg sql st (r.size - 1)).bind fun s =>
-                match lookupS (w.map asciiUpper) cfg.keywords with
-                | some ty => add cfg sql s ty (some (w.map asciiUpper))
-                | none => .error s.current
-          else fallback
-    | none => fallback
+    match (kwResult cfg sql st c0.c).word with
+    | some w => scanWord cfg sql st c0.c (kwResult cfg sql st c0.c) w
+    | none => kwFallback cfg sql st c0.c
 
 def skipBlanks (sql : Sql) : Nat → Nat → Nat
   | 0, cur => cur
@@ -554,19 +599,25 @@ def skipBlanks (sql : Sql) : Nat → Nat → Nat
     | some ch => if ch.c == ' ' || ch.c == '\t' then skipBlanks sql f (cur+1) else cur
     | none => cur
 
+def blankEnd (sql : Sql) (st : St) : Nat := skipBlanks sql (sql.size - st.current) st.current
+
+/-- `offset = current - self._current if current > self._current else 1` -/
+def stepOff (sql : Sql) (st : St) : Nat :=
+  if blankEnd sql st > st.current then blankEnd sql st - st.current else 1
+
+def dispatch (cfg : Cfg) (sql : Sql) (s : St) (ch : Ch) : Res St :=
+  if ch.space then .ok s
+  else if isDigit ch.c then scanNumber cfg sql s
+  else match lookupS [ch.c] cfg.identifiers with
+    | some e => scanIdentifier cfg sql s e
+    | none => scanKeywords cfg sql s
+
 /-- one iteration of the `_scan` loop -/
 def scanStep (cfg : Cfg) (sql : Sql) (st : St) : Res St :=
-  let cur := skipBlanks sql (sql.size - st.current) st.current
-  let off := if cur > st.current then cur - st.current else 1
-  (advance sql { st with start := cur } off).bind fun s =>
+  (advance sql { st with start := blankEnd sql st } (stepOff sql st)).bind fun s =>
     match char sql s with
     | none => .unsupported "no current character"
-    | some ch =>
-      if ch.space then .ok s
-      else if isDigit ch.c then scanNumber cfg sql s
-      else match lookupS [ch.c] cfg.identifiers with
-        | some e => scanIdentifier cfg sql s e
-        | none => scanKeywords cfg sql s
+    | some ch => dispatch cfg sql s ch
 
 def scanLoop (cfg : Cfg) (sql : Sql) : Nat → St → Res St
   | 0, _ => .fuel
@@ -578,6 +629,20 @@ def lex (cfg : Cfg) (sql : Sql) : Res St := scanLoop cfg sql (sql.size + 1) {}
 
 /-- the window `tokenize` puts on a TokenError -/
 def errorWindow (size cur : Nat) : Nat × Nat := (cur - 50, min (cur + 50) (size - 1))
+
+/-! ### decidable hygiene of a configuration (what the no-skew theorem needs from the tables) -/
+
+def noNLs (l : List Char) : Bool := l.all (fun c => c != '\n' && c != '\r')
+def noSp (l : List Char) : Bool := l.all (fun c => c != ' ')
+
+/-- all three position repairs are in the code; no string / identifier / comment delimiter contains CR or LF; no start
+    delimiter (a keyword-trie key) contains a blank -/
+def cleanCfg (cfg : Cfg) : Bool :=
+  cfg.fixLoneCR && cfg.fixKwJump && cfg.fixEscJump
+  && cfg.quotes.all (fun kv => noSp kv.1.toList && noNLs kv.2.toList)
+  && cfg.formats.all (fun f => noSp f.1.toList && noNLs f.2.1.toList)
+  && cfg.identifiers.all (fun kv => noNLs kv.2.toList)
+  && cfg.comments.all (fun kv => noSp kv.1.toList && noNLs kv.1.toList && noNLs kv.2.toList)
 
 /-! ### ASCII inputs (for examples and witnesses; the driver receives the class bits from CPython instead) -/
 
